@@ -59,7 +59,7 @@ add('C21', 'exploration',
 add('C39', 'exploration',
     'TLA+ spec Control.tla: structured meaning with completion records evaluated by TLC for three program families (nested foreach/while/for loops with break/continue/return aimed at any enclosing block by name; a function called from a loop that ends itself; a block ended from one stage of a pipeline while the producer stage is still running), exported as a table; every program run by the real interpreter and compared',
     'About 3900 nest programs (outer loop kind x optional inner loop kind x control statement kind and position in each x loop last or followed) + 162 call programs + 20 stage programs, x 2 call contexts: printed tags and function exit number (after return n or a normal end) must equal the structured meaning computed by TLC; stage family: the number of items the producer stage started must lie in the range the meaning gives.',
-    'loops over 1..3 / 1..2; block names foreach/while/for/if/function name; the exit number of a function whose last statement is a loop left by break is not judged; stage family depends on timing (1 s per item, re-run alone at 3 s per item before a disagreement counts)', 'DESIGN §6 C39')
+    'loops over 1..3 / 1..2; block names foreach/while/for/if/function name; the exit number of a function whose last statement is a loop left by break is not judged; stage family depends on timing (1 s per item, re-run alone twice at 5 s per item before a disagreement counts)', 'DESIGN §6 C39')
 add('C22', 'exploration',
     'TLA+ spec Resolve.tla: resolution order with single alias expansion evaluated by TLC over all definition subsets and alias targets, exported as a table; each row set up and run in the real interpreter',
     'All 176 relevant combinations of {private, alias, function, builtin, external} x alias target {builtin, itself, another name} x definitions of the other name are enumerated by TLC; the definition that actually answers in murex (including self-referential aliases and alias-to-alias, which must not loop) is compared with the table.',
